@@ -373,6 +373,16 @@ func heldHandleScenario(cfg fatCfg, oracle string, depth int) *fatScen {
 	return &fatScen{Name: "heldhandle", Cfg: cfg, Prefix: pre, Letters: l, Depth: depth, Oracle: oracle}
 }
 
+// fatNearMaxScenario: a volume with almost the largest cluster count its FAT type allows (FAT12: 4084 clusters), filled to the
+// last cluster, so that chains run through the highest cluster numbers - just below the values reserved for bad clusters
+// and end-of-chain marks (0xFF0.. on FAT12).
+func fatNearMaxScenario(oracle string, depth int) *fatScen {
+	W := func(p, off, ln string) fsOp { return fsOp{Kind: "write", Path: p, Off: off, Len: ln} }
+	// 4084 data clusters: 2040 + 2040 + 3 + 1 fill the volume to the last cluster
+	l := []fsOp{W("A.BIN", "0", "2040c"), W("B.BIN", "0", "2040c"), W("grow-long-name.bin", "0", "3c"), {Kind: "append", Path: "grow-long-name.bin", Len: "c"}, {Kind: "remove", Path: "A.BIN"}, {Kind: "reopen"}}
+	return &fatScen{Name: "nearmax", Cfg: fatCfg{Type: 12, Size: 8384512, Start: 512}, Letters: l, Depth: depth + 1, Oracle: oracle}
+}
+
 // fatFillScenario: fill / empty / refill on small volumes, explored to fixpoint.
 func fatFillScenario(cfg fatCfg, oracle string, depth int) *fatScen {
 	W := func(p, ln string) fsOp { return fsOp{Kind: "write", Path: p, Off: "0", Len: ln} }
